@@ -8,7 +8,31 @@ extern "C" {
 #include <algorithm>
 #include <cstring>
 
+// guarded hooks in /repo (HDF4_VERIF_SIM): see MANIFEST.hooks
+extern "C" {
+extern int32 h4verif_vdata_buffer_max;
+extern int32 h4verif_sd_fill_chunk_max;
+extern int16 h4verif_ndds_override;
+extern int32 h4verif_block_len_override;
+extern int32 h4verif_block_num_override;
+}
+
 namespace h4 {
+
+// tuning knobs that the public API does not expose: drawn per run so that short histories cross the boundaries
+static inline void apply_hook_knobs(const Plan &p)
+{
+    if (p.knob("vsbuf", 0) > 0)
+        h4verif_vdata_buffer_max = (int32)p.knob("vsbuf", 0);
+    if (p.knob("sdfillmax", 0) > 0)
+        h4verif_sd_fill_chunk_max = (int32)p.knob("sdfillmax", 0);
+    if (p.knob("ndds_override", 0) > 0)
+        h4verif_ndds_override = (int16)p.knob("ndds_override", 0);
+    if (p.knob("blklen", 0) > 0)
+        h4verif_block_len_override = (int32)p.knob("blklen", 0);
+    if (p.knob("blknum", 0) > 0)
+        h4verif_block_num_override = (int32)p.knob("blknum", 0);
+}
 
 // op-kind table of a profile: name -> small integer
 struct OpTable {
